@@ -128,6 +128,59 @@ Partitions(S) == IF S = {} THEN {{}}
                       UNION {{P \cup {T \cup {x}} : P \in Partitions(S \ (T \cup {x}))} : T \in SUBSET (S \ {x})}
 ReduceUnique(V, E) == \A chains \in Partitions(E) : IsReduction(V, E, chains) => chains = SpecChains(V, E)
 
+
+
+(* ---- exploreBranch(g, s, e): the part of the graph reached through edge e without passing
+   through s again: all edges inside the component of e's far end in G - s, plus the edges
+   between s and that component (graphalgorithm.h).  Graph_DF_Visitor on its own explores, like
+   the breadth-first visitor, exactly Reach(start).                                          *)
+SpecBranch(V, E, s, e) ==
+  LET w == Other(e, s)
+      C == Reach(V \ {s}, {f \in E : s \notin Ends(f)}, w)
+  IN {f \in E : Ends(f) \subseteq C \cup {s} /\ Ends(f) \cap C # {}}
+\* the branches at s are pairwise equal or disjoint and together make up the edges of s's component
+BranchLaw(V, E, s) ==
+  LET Bs == {SpecBranch(V, E, s, e) : e \in IncEdges(E, s)} IN
+  /\ \A e \in IncEdges(E, s) : e \in SpecBranch(V, E, s, e)
+  /\ \A A, B \in Bs : A = B \/ A \cap B = {}
+  /\ UNION Bs = CompEdges(E, Reach(V, E, s))
+
+(* ---- decomposition into simple motifs (csg::breakIntoMotifs + breakIntoSimpleMotifs) -----------
+   Losslessness in the same sense as components/chains: the independent structures are the
+   connected components; inside one component every bead lies in exactly one simple motif and
+   every edge lies either inside exactly one motif or exactly once in the connector, where it
+   joins the two motifs that own its end points.  A simple motif has one of the four documented
+   shapes (beadmotif.h): single bead, line (a path), loop (a cycle), fused ring (connected, no
+   vertex of degree < 2, at least one junction).  WHICH edges are cut at a junction is the
+   code's policy (scenarios I-IV in beadmotifalgorithms.cc) and is not prescribed here.      *)
+IsPathGraph(W, F) == /\ Cardinality(W) >= 2 /\ W = VertsOf(F)
+                     /\ Reach(W, F, CHOOSE v \in W : TRUE) = W
+                     /\ \A v \in W : Deg(F, v) \in {1, 2}
+                     /\ Cardinality({v \in W : Deg(F, v) = 1}) = 2
+IsCycleGraph(W, F) == /\ W # {} /\ W = VertsOf(F)
+                      /\ Reach(W, F, CHOOSE v \in W : TRUE) = W
+                      /\ \A v \in W : Deg(F, v) = 2
+IsFusedShape(W, F) == /\ W # {} /\ W = VertsOf(F)
+                      /\ Reach(W, F, CHOOSE v \in W : TRUE) = W
+                      /\ \A v \in W : Deg(F, v) >= 2
+                      /\ \E v \in W : Deg(F, v) >= 3
+ShapeOK(type, W, F) == CASE type = "single_bead" -> Cardinality(W) = 1 /\ F = {}
+                         [] type = "line" -> IsPathGraph(W, F)
+                         [] type = "loop" -> IsCycleGraph(W, F)
+                         [] type = "fused_ring" -> IsFusedShape(W, F)
+                         [] OTHER -> FALSE          \* complex / undefined types must not be returned
+\* motifs: set of records [id, type, v, e]; conns: set of records [e, m] (bead edge, pair of motif ids)
+IsMotifDecomposition(C, EC, motifs, conns) ==
+  /\ IsPartition({m.v : m \in motifs}, C)
+  /\ \A m, k \in motifs : m # k => m.v # k.v
+  /\ \A m \in motifs : m.e \subseteq EC /\ VertsOf(m.e) \subseteq m.v /\ ShapeOK(m.type, m.v, m.e)
+  /\ (UNION {m.e : m \in motifs}) \cup {c.e : c \in conns} = EC
+  /\ (UNION {m.e : m \in motifs}) \cap {c.e : c \in conns} = {}
+  /\ \A c \in conns : \E m, k \in motifs :
+        /\ {m.id, k.id} = {c.m[1], c.m[2]}
+        /\ \/ (c.e[1] \in m.v /\ c.e[2] \in k.v)
+           \/ (c.e[2] \in m.v /\ c.e[1] \in k.v)
+
 (* ---- structure id --------------------------------------------------------------------
    findStructureId<GraphDistVisitor>: every vertex of maximal degree is a start candidate
    (the "greatest node string" filter in the code never selects anything because
